@@ -3,6 +3,9 @@
 import json, os
 V = os.path.dirname(os.path.dirname(os.path.abspath(__file__)))
 cfg = json.load(open(os.path.join(V, "tools", "checks.json")))
+import glob
+for f in sorted(glob.glob(os.path.join(V, "tools", "checks.d", "C*.json"))):
+    cfg["checks"].append(json.load(open(f)))
 checks = []
 for c in cfg["checks"]:
     pid = c["id"]
